@@ -108,7 +108,13 @@ def main():
             time.sleep(0.3)
             observe(w, 'remote: exception class whose constructor needs arguments', viol, obs)
             return True
-        for fn in (rem_kbint, rem_badexc):
+        def rem_badstate():
+            w = RemoteWorker(T.return_with_unrebuildable_state, args=(7,), host=server.addr)
+            w.wait(10)
+            time.sleep(0.5)
+            observe(w, 'remote: work returned normally, its user_state cannot be rebuilt on the parent side', viol, obs)
+            return True
+        for fn in (rem_kbint, rem_badexc, rem_badstate):
             if not guarded(fn):
                 viol.append(f'{fn.__name__}: parent blocked')
     finally:
